@@ -368,6 +368,139 @@ def specs(rng: random.Random, part: int, nparts: int, tier: str) -> list[dict[st
     return out
 
 
+# ---------------------------------------------------------------------------
+# pickles read back in another process (another PYTHONHASHSEED)
+# ---------------------------------------------------------------------------
+
+_CHILD = r"""
+import sys, pickle, json, re, copy
+sys.path.insert(0, sys.argv[1]); sys.path.insert(1, sys.argv[2])
+addr = re.compile(r" at 0x[0-9a-fA-F]+")
+with open(sys.argv[3], "rb") as f:
+    items = pickle.load(f)
+out = []
+for blob, datas in items:
+    try:
+        t = pickle.loads(blob)
+    except Exception as e:
+        out.append(["loads", type(e).__name__ + ": " + str(e)[:80]])
+        continue
+    res = []
+    for d in datas:
+        try:
+            res.append(["ok", addr.sub(" at 0x?", t.render(**copy.deepcopy(d)))])
+        except Exception as e:
+            res.append(["err", type(e).__name__])
+    out.append(["rendered", res])
+json.dump(out, sys.stdout)
+"""
+
+
+def _other_process(items: list[tuple[bytes, list[dict[str, Any]]]], tmp: str) -> list[Any] | None:
+    import json
+    import subprocess
+    import sys
+
+    from .core import REPO_DIR
+    from .core import VERIF_DIR
+
+    path = os.path.join(tmp, "xproc.pkl")
+    with open(path, "wb") as f:
+        pickle.dump(items, f)
+    env = dict(os.environ)
+    env["PYTHONHASHSEED"] = "4242" if env.get("PYTHONHASHSEED") != "4242" else "17"
+    p = subprocess.run([sys.executable, "-B", "-c", _CHILD, REPO_DIR, VERIF_DIR, path], env=env,  # noqa: S603
+                       capture_output=True, text=True, timeout=600, check=False)
+    if p.returncode != 0:
+        return None
+    return json.loads(p.stdout)
+
+
+def _outcomes(t: Any, datas: list[dict[str, Any]]) -> list[list[str]]:
+    res = []
+    for d in datas:
+        try:
+            res.append(["ok", _ADDR.sub(" at 0x?", t.render(**copy.deepcopy(d)))])
+        except Exception as e:  # noqa: BLE001
+            res.append(["err", type(e).__name__])
+    return res
+
+
+def xproc(spec: dict[str, Any], ctx: Ctx, tmp: str) -> None:
+    """Pickle here, unpickle and render in a process with another hash seed."""
+    rng = random.Random(f"{spec['seed']}:xproc")
+    datas = [G.DATA_A, G.DATA_B]
+    cases: list[tuple[str, str, dict[str, str]]] = [("shopify", src, G.PARTIALS) for src, _f in G._tag_units()]  # noqa: SLF001
+    for j in range(60 if spec["tier"] == "quick" else 1500):
+        src, tpls, _ = G.random_case(random.Random(f"{rng.random()}:{j}"), shopify=True, max_depth=2)
+        cases.append(("shopify", src, tpls))
+    items, kept, expected = [], [], []
+    for kind, src, tpls in cases:
+        try:
+            env = ShopifyEnvironment(loader=DictLoader(tpls))
+            t = env.from_string(src)
+            exp = _outcomes(t, datas)
+            if _outcomes(t, datas) != exp:
+                continue  # not a function of its inputs in this process either
+            blob = pickle.dumps(t)
+        except Exception:  # noqa: BLE001
+            continue
+        items.append((blob, datas))
+        kept.append((kind, src, tpls))
+        expected.append(exp)
+    got = _other_process(items, tmp)
+    if got is None:
+        ctx.note("cross-process pickle child failed to run")
+        return
+    minimised: set[str] = set()
+    for (kind, src, tpls), exp, g in zip(kept, expected, got):
+        ctx.ev()
+        ctx.count("xproc_pickles")
+        wit = {"check": "xproc", "kind": kind, "source": src, "templates": tpls, "datas": datas}
+        if g[0] == "loads":
+            ctx.violation("pickle-xproc-loads:" + g[1].split(":")[0],
+                          f"a pickle made in this process does not load in another process: {g[1]}", wit)
+            continue
+        if g[1] == exp:
+            ctx.count("xproc_compared_equal")
+            continue
+        j = next((i for i, (a, b) in enumerate(zip(exp, g[1])) if a != b), 0)
+        small = src
+        if "behaviour" not in minimised:
+            minimised.add("behaviour")
+            small = _min_xproc(src, tpls, datas, tmp)
+        try:
+            classes = sorted({type(n).__name__ for n in ShopifyEnvironment(loader=DictLoader(tpls)).from_string(small).nodes}
+                             - {"ContentNode"})
+        except Exception:  # noqa: BLE001
+            classes = ["?"]
+        key = "pickle-xproc-behaviour@" + "+".join(classes)[:60] if small != src else "pickle-xproc-behaviour"
+        wit["source"] = small
+        ctx.violation(key, "template pickled here and unpickled in a process with another PYTHONHASHSEED renders "
+                           f"differently on data set {j}: {exp[j]!r} vs {g[1][j]!r}", wit)
+
+
+def _min_xproc(src: str, tpls: dict[str, str], datas: list[dict[str, Any]], tmp: str) -> str:
+    """A few subprocess runs: keep the top-level chunks that still show the difference."""
+    from .minimize import ddmin
+    from .props.c12 import _chunks
+
+    def fails(text: str) -> bool:
+        try:
+            t = ShopifyEnvironment(loader=DictLoader(tpls)).from_string(text)
+            exp = _outcomes(t, datas)
+            got = _other_process([(pickle.dumps(t), datas)], tmp)
+        except Exception:  # noqa: BLE001
+            return False
+        return bool(got) and got[0][0] == "rendered" and got[0][1] != exp
+
+    ch = _chunks("shopify", src)
+    if not ch or len(ch) < 2:
+        return src
+    ch = ddmin(ch, lambda c: fails("".join(c)), max_calls=40)
+    return "".join(ch)
+
+
 def run(spec: dict[str, Any], ctx: Ctx) -> None:
     rng = random.Random(f"{spec['seed']}:state:{spec['i']}")
     b = Builder()
@@ -376,6 +509,8 @@ def run(spec: dict[str, Any], ctx: Ctx) -> None:
         for sp in specs(rng, spec["i"], spec["n"], spec["tier"]):
             check_one(sp, b, ctx)
             last = sp
+        if spec["i"] == 0:
+            xproc(spec, ctx, b.tmp)
         if last:
             ctx.sample({"kind": "state", "path": last["path"], "source": last["source"][:200],
                         "layers": {k: sorted(v) for k, v in last["layers"].items()}})
@@ -386,6 +521,15 @@ def run(spec: dict[str, Any], ctx: Ctx) -> None:
 def replay(wit: dict[str, Any], ctx: Ctx) -> None:
     b = Builder()
     try:
+        if wit.get("check") == "xproc":
+            t = ShopifyEnvironment(loader=DictLoader(wit["templates"])).from_string(wit["source"])
+            exp = _outcomes(t, wit["datas"])
+            got = _other_process([(pickle.dumps(t), wit["datas"])], b.tmp)
+            print(f"replay C12 xproc: here={exp!r}\n  other process={got!r}")
+            if got and (got[0][0] != "rendered" or got[0][1] != exp):
+                ctx.violation("pickle-xproc-behaviour", "renders differently after unpickling in another process",
+                              dict(wit))
+            return
         spec = {k: v for k, v in wit.items() if k != "check"}
         key = check_one(spec, b, ctx)
         print(f"replay C12 state: path={spec['path']} key={key or '<held>'}")
